@@ -1608,10 +1608,16 @@ MANIFEST = {
             "master for loads) exactly as they were; user_resolution_spec (lazy imports included, every user, every focus): whenever the "
             "cache invariant holds for the library of user u, a normal return of load_theory(n, limit, username=u) carries the "
             "specification on u's OWN files (a module's load_theory call works on master and never disturbs u's library); "
-            "load_eq_spec_users_partial: for every NON-master user u, after any multi-user history whose operations on u's own "
-            "files satisfy the hypothesis (nothing asked of the other users), a normal return carries the specification on "
-            "u's current files; NOT proved: the same for master when other users are active (master's library is also "
-            "changed by their lazy imports) and the no-spurious-failure direction for several users; the results "
+            "load_returns_spec_users (EVERY user, master included, any interleaving): after any multi-user history -- loads of any "
+            "user (interrupted or not), module imports, touches, edits, metadata reloads -- in which the operations that reach "
+            "u's own library satisfy the hypothesis okHistA (fresh timestamps for u's files; no load reaching u's library between "
+            "an edit of the imports of one of u's files and load_metadata(u); for a non-master user only its own loads reach "
+            "it, for master also every other user's load and every module import do, through the basic.load_theory calls of "
+            "lazily imported modules), a normal return of load_theory(T, limit, username=u) carries the specification on u's "
+            "CURRENT files; behind it keepM_execU: every call of the multi-user loader, from every focus, keeps the cache "
+            "invariant of master's library. load_eq_spec_users_partial is its non-master case (kept, pinned). NOT proved: the "
+            "no-spurious-failure direction for several users (it also needs master's library healthy -- a lazily imported "
+            "module loads a master theory -- and the no-failure lemmas are not threaded through two libraries); the results "
             "of loads in multi-user histories, including users whose imports differ from master's and theories master lacks, are judged by "
             "the second-user histories (fresh process, reference loader, model step by step). FUEL: every theorem admits the outcome 'the model ran out of fuel'; no theorem says that some amount of "
             "fuel suffices; every run confirms on its own histories that fuel 400 sufficed. "
